@@ -561,9 +561,12 @@ impl Ctx {
             in_toto::verif::start_recording();
         }
         let ld = link_dir.to_str().unwrap().to_string();
+        // the NAME the caller asks the summary to be filed under: none, or (every other scenario) one of its choosing.
+        // It names the result and nothing else - every check is made either way.
+        let asked: Option<&str> = if line["i"].as_u64().unwrap_or(0) % 2 == 1 { Some("asked.for") } else { None };
         if history {
             if let Ok(mb) = &top {
-                let _ = guarded(|| in_toto::verifylib::in_toto_verify(mb, keys.clone(), &ld, None));
+                let _ = guarded(|| in_toto::verifylib::in_toto_verify(mb, keys.clone(), &ld, asked));
             }
             write_dirs(&texts, true);
         }
@@ -572,7 +575,7 @@ impl Ctx {
         let mut distinct: Vec<Value> = vec![];
         if let Ok(mb) = &top {
             for _ in 0..repeat {
-                let rr = guarded(|| in_toto::verifylib::in_toto_verify(mb, keys.clone(), &ld, None));
+                let rr = guarded(|| in_toto::verifylib::in_toto_verify(mb, keys.clone(), &ld, asked));
                 let d = match &rr {
                     Ok(Ok(m)) => match &m.metadata {
                         MetadataWrapper::Link(l) => json!({"out": "ok", "sum": self.abstract_link(l, scn)}),
@@ -587,7 +590,7 @@ impl Ctx {
             }
         }
         let r = match &top {
-            Ok(mb) => guarded(|| in_toto::verifylib::in_toto_verify(mb, keys, &ld, None)),
+            Ok(mb) => guarded(|| in_toto::verifylib::in_toto_verify(mb, keys, &ld, asked)),
             Err(e) => Ok(Err(in_toto::Error::Opaque(format!("top layout does not parse: {e}")))),
         };
         let events = if want_events { in_toto::verif::take_events() } else { vec![] };
@@ -621,6 +624,7 @@ impl Ctx {
                 if let MetadataWrapper::Link(l) = &mb.metadata {
                     res["sum"] = self.abstract_link(l, scn);
                     res["sum_sigs"] = json!(mb.signatures.len());
+                    res["name_ok"] = json!(l.name == asked.unwrap_or(""));
                 } else {
                     res["sum"] = json!("layout");
                 }
